@@ -73,3 +73,35 @@ def chooseMeta (b0 b1 : Bytes) : Choice :=
     else if txNewer t0 t1 then .slot0 else .slot1
 
 end TxVerif
+
+namespace TxVerif
+
+/-- the on-disk layout of `metaPage` (field name, size in bytes), in order -/
+def metaLayout : List (String × Nat) :=
+  [("magic", 4), ("version", 4), ("pageSize", 4), ("maxSize", 8), ("flags", 4), ("root", 8), ("txid", 8),
+   ("freelist", 8), ("wal", 8), ("dataEndMarker", 8), ("metaEndMarker", 8), ("metaTotal", 8), ("checksum", 4)]
+
+def Meta.fieldValues (m : Meta) : List Nat :=
+  [m.magic, m.version, m.pageSize, m.maxSize, m.flags, m.root, m.txid, m.freelist, m.wal, m.dataEnd, m.metaEnd,
+   m.metaTotal, m.checksum]
+
+def encodeFields : List (String × Nat) → List Nat → Bytes
+  | (_, sz) :: l, v :: vs => leEnc sz v ++ encodeFields l vs
+  | _, _ => []
+
+/-- offset of a field in a packed layout -/
+def layoutOffset : List (String × Nat) → String → Option Nat
+  | [], _ => none
+  | (n, sz) :: l, f => if n == f then some 0 else (layoutOffset l f).map (· + sz)
+
+def layoutSize (l : List (String × Nat)) : Nat := (l.map (·.2)).sum
+
+/-- the encoder used by the model is the packed little-endian encoding of the layout -/
+theorem Meta.encode_eq_layout (m : Meta) : m.encode = encodeFields metaLayout m.fieldValues := by
+  simp [Meta.encode, Meta.body, encodeFields, metaLayout, Meta.fieldValues, le32, le64]
+
+theorem metaLayout_size : layoutSize metaLayout = metaSize := by decide
+theorem metaLayout_checksumOff : layoutOffset metaLayout "checksum" = some metaChecksumOff := by decide
+theorem metaLayout_txidOff : layoutOffset metaLayout "txid" = some 32 := by decide
+
+end TxVerif
